@@ -21,7 +21,8 @@ EXPLANATION = (
     "nothing else touches the registers; the argument checks (one argument; bool result for DJ/BV) dominate; the "
     "algorithm circuit has the black box's qubit count so `+=` places qubit i on qubit i; (SB-TWIN) decoders read the "
     "input register with the argument's type and length, output_qubits is the input register; (FX-PARAM) the function "
-    "handed in is not modified; (DP-TABLE) secret_oracle generates the xor of x[i]&s[i] over all i.  It does NOT "
+    "handed in is not modified; (DP-TABLE) secret_oracle generates the xor of x[i]&s[i] over all i; (MP-threshold) "
+    "decode_counts applies its threshold to the summed counts of the decoded outcomes, not to the raw readings.  It does NOT "
     "decide the black box's own correctness (C02/C03/C06), on which the textbook guarantee also rests, nor any "
     "probability."
 )
